@@ -229,7 +229,7 @@ def _double_reconnect(rep, wd, tier):
     from .sched import schedules
     scn = next(s for s in c16.SCENARIOS if s[0] == "lost_exc")
     probe = c16.execute(scn + ({},))
-    acts = ["producer", "pump", "reader", "connector"]
+    acts = ["producer0", "pump", "reader", "connector"]
     runs = [c16.execute(scn + (sw,)) for sw in schedules(probe["steps"] + 4, acts, 1)]
     distinct = {}
     for x in runs:
